@@ -3,7 +3,7 @@ from __future__ import annotations
 
 import ast
 
-from sa.astx import NotConst, call_attr, call_name, const_eval, names_read, parents, src, walk_local
+from sa.astx import NotConst, call_attr, call_name, const_eval, names_read, src, walk_local
 from sa.selftest import Mutant, Silent
 from sa.source import AnalysisError
 from sa.props._lib_k import contains_node, eval_to
@@ -12,7 +12,7 @@ PROPERTY = "C56"
 FLAT = "logger/_flatten.py"
 JSON = "logger/_json.py"
 FMT = "logger/_format.py"
-TECHNIQUE = "finite evaluation of writer/reader key normalisers + CFG ordering + key-constant agreement"
+TECHNIQUE = "finite evaluation of key normalisers, CFG ordering, concrete interpretation over event family"
 EXPLANATION = (
     "Writer/reader agreement for flattened events, decided on the AST/CFG of flattenEvent, flatFormat, KeyFlattener.flatKey, "
     "eventAsJSON/eventFromJSON and _formatEvent: (a) the conversion code each side hands to flatKey (after flatKey's own "
@@ -22,7 +22,11 @@ EXPLANATION = (
     "field in order with a fresh KeyFlattener created outside the loop, the key depends on all three components and is "
     "computed from the unstripped field name; (d) the writer calls `()` fields before converting and stores the converted "
     "text under the flattened key; (e) the reader emits literal-then-field joined by ''; (f) eventAsJSON flattens before "
-    "dumps, the 'log_flattened' / '__class_uuid__' constants agree between writers, readers and the _formatEvent dispatch. "
+    "dumps, the 'log_flattened' / '__class_uuid__' constants agree between writers, readers and the _formatEvent dispatch, dumps / loads "
+    "receive only keyword arguments that make them more total (no allow_nan=False, parse_* hooks, dropped skipkeys); (g) flattenEvent, "
+    "flatFormat, eventAsJSON and eventFromJSON are interpreted concretely over a family of 25 format strings (plain / !s / !r, repeated, "
+    "called and uncalled references to the same name, attribute and index lookups, inf) and the text after flattening, flattening "
+    "twice and the JSON round trip must equal the str.format-with-call text of the original event. "
     "Not decided: text equality for arbitrary values, fidelity of non-string values through JSON."
 )
 ASSUMPTIONS = [
@@ -67,8 +71,7 @@ def _norm_by_flatkey(ctx, flatkey, value):
         raise AnalysisError(f"flatKey: conversion component not evaluable: {e}")
 
 
-def check(ctx):
-    mod = ctx.mod(FLAT)
+def _structural(ctx):
     writer = ctx.func(FLAT, "flattenEvent")
     reader = ctx.func(FLAT, "flatFormat")
     flatkey = ctx.func(FLAT, "KeyFlattener.flatKey")
@@ -294,7 +297,9 @@ def check(ctx):
         ctx.check(ok, "writer/publishes-fields", ctx.construct(QF + "flattenEvent", pub[0]),
                   "the mapping that received the flattened values is not the one attached to the event (or only under an unrelated condition)")
 
-    # ---- _formatEvent dispatches flattened events to flatFormat ------------------------------------------------------------
+
+
+def _dispatch(ctx):
     fe = ctx.func(FMT, "_formatEvent")
     gf_ = ctx.cfg(fe)
     disp = gf_.find(lambda x: isinstance(x, ast.Call) and call_name(x) == "flatFormat")
@@ -310,7 +315,9 @@ def check(ctx):
         ctx.check(ok, "dispatch/flattened-uses-flatFormat", ctx.construct("twisted.logger._format._formatEvent", gf_.node(o).ast),
                   "the live-object formatter can run for an event that carries flattened values")
 
-    # ---- (f) JSON ----------------------------------------------------------------------------------------------------------
+
+
+def _json(ctx):
     ej = ctx.func(JSON, "eventAsJSON")
     gj = ctx.cfg(ej)
     fl = gj.find(lambda x: isinstance(x, ast.Call) and call_name(x) == "flattenEvent")
@@ -330,10 +337,13 @@ def check(ctx):
         kws = {k.arg: k.value for k in c.keywords}
         ctx.check(len(c.args) >= 1 and src(c.args[0]) == ev and "default" in kws, "json/dumps-arguments", ctx.construct("twisted.logger._json.eventAsJSON", c),
                   "dumps does not serialise the flattened event with the fallback encoder")
+        _kwargs_total(ctx, "twisted.logger._json.eventAsJSON", c, _DUMPS_OK, _DUMPS_BAD, required={"skipkeys": True})
     lj = ctx.func(JSON, "eventFromJSON")
     lo = [c for c in ast.walk(lj) if isinstance(c, ast.Call) and call_name(c) in ("loads", "json.loads")]
     ctx.check(len(lo) == 1 and src(lo[0].args[0]) == lj.args.args[0].arg, "json/loads", "twisted.logger._json.eventFromJSON",
               "eventFromJSON does not load the given text")
+    for c in lo:
+        _kwargs_total(ctx, "twisted.logger._json.eventFromJSON", c, _LOADS_OK, _LOADS_BAD, required={})
     # class-uuid marker agreement
     sv = ctx.func(JSON, "objectSaveHook")
     ld = ctx.func(JSON, "objectLoadHook")
@@ -356,8 +366,174 @@ def check(ctx):
     ctx.floor("json/class-table-row", len(table.elts), 2, "rows")
 
 
+# keyword arguments of json.dumps / json.loads: only those that make the (de)serialisation *more* total are acceptable
+_DUMPS_OK = {"default", "skipkeys", "ensure_ascii", "sort_keys", "separators", "indent"}
+_DUMPS_BAD = {"allow_nan": True, "check_circular": True}          # harmless only with this constant value (the default)
+_LOADS_OK = {"object_hook", "strict"}
+_LOADS_BAD = {"parse_float": None, "parse_int": None, "parse_constant": None, "object_pairs_hook": None}
+
+
+def _kwargs_total(ctx, qual, call, ok, bad, required):
+    for k in call.keywords:
+        if k.arg is None:
+            raise AnalysisError(f"{qual}: **kwargs in {src(call)[:60]}")
+        c = ctx.construct(qual, call.func) + f" | {k.arg}="
+        if k.arg in required:
+            v = k.value.value if isinstance(k.value, ast.Constant) else "?"
+            ctx.check(v == required[k.arg], "json/serialisation-total", c, f"{k.arg}={src(k.value)}: events with keys json cannot encode make serialisation raise")
+        elif k.arg in ok:
+            ctx.ok("json/serialisation-total", c)
+        elif k.arg in bad:
+            harmless = bad[k.arg] is not None and isinstance(k.value, ast.Constant) and k.value.value == bad[k.arg]
+            ctx.check(harmless, "json/serialisation-total", c,
+                      f"{k.arg}={src(k.value)} makes the JSON round trip raise or alter values json handles by default (e.g. inf/nan, numbers): the loaded "
+                      "event no longer formats like the original")
+        else:
+            raise AnalysisError(f"{qual}: keyword {k.arg} of {src(call.func)} is not classified")
+    for k, v in required.items():
+        if k not in {x.arg for x in call.keywords}:
+            ctx.violation("json/serialisation-total", ctx.construct(qual, call.func) + f" | {k}=", f"{k}={v} was dropped: serialisation is less total than before")
+
+
+# ---- concrete evaluation of flatten -> format (-> JSON -> format) over a finite family of events -----------------------------
+class _V:
+    def __init__(self, tag):
+        self.tag = tag
+
+    def __str__(self):
+        return f"<{self.tag}>"
+
+    def __repr__(self):
+        return f"V({self.tag!r})"
+
+
+class _F(_V):
+    def __call__(self):
+        return _V(self.tag + "()")
+
+
+class _H(_V):
+    def __init__(self, tag):
+        super().__init__(tag)
+        self.inner = _V(tag + ".inner")
+        self.table = {"k": _V(tag + ".table[k]")}
+        self.fn = _F(tag + ".fn")
+
+
+FAMILY = ["plain text", "", "{x}", "{x!s}", "{x!r}", "{x} and {x}", "{x!r} {x!s} {x}", "{x}{y}", "{{braces}} {x}", "{n} items", "{s!r}",
+          "ratio={ratio}", "{u}", "{f()}", "{f}", "{f} -> {f()}", "{f()} -> {f}", "{f()!r} {f()}", "{f!r} {f()!r}", "{h.inner}", "{h.inner!r} {h.inner}",
+          "{h.table[k]}", "{h.fn()}", "{h.fn} {h.fn()}", "tail {y} end"]
+
+
+def _values():
+    return {"x": _V("x"), "y": _V("y"), "n": 3, "s": "text", "ratio": float("inf"), "u": "\xe9", "f": _F("f"), "h": _H("h")}
+
+
+def _expected(fmt, values):
+    import string
+    fm = string.Formatter()
+    out = []
+    for lit, field, spec, conv in fm.parse(fmt):
+        out.append(lit)
+        if field is None:
+            continue
+        callit = field.endswith("()")
+        obj, _ = fm.get_field(field[:-2] if callit else field, (), values)
+        if callit:
+            obj = obj()
+        obj = {None: lambda v: v, "s": str, "r": repr, "a": ascii}[conv](obj)
+        out.append(format(obj, spec or ""))
+    return "".join(out)
+
+
+def _concrete(ctx):
+    import collections
+    import json
+    import string
+    import uuid
+    import types
+    from sa.props._lib_k import Interp, Nonterminating
+    fl, js = ctx.mod(FLAT), ctx.mod(JSON)
+    nc = type("NamedConstant", (), {})
+    fa = type("Failure", (), {})
+    it = Interp({"aFormatter": string.Formatter(), "Formatter": string.Formatter, "defaultdict": collections.defaultdict, "dumps": json.dumps,
+                 "loads": json.loads, "UUID": uuid.UUID, "NamedConstant": nc, "Failure": fa, "LogLevel": types.SimpleNamespace(),
+                 "JSONDict": dict, "LogEvent": dict, "Dict": dict, "Any": object, "Optional": None, "Union": None}, budget=2000000)
+    it.load(fl)
+    it.load(js, only={"eventAsJSON", "eventFromJSON", "objectSaveHook", "objectLoadHook", "failureAsJSON", "failureFromJSON"})
+    for name in ("flattenEvent", "flatFormat", "eventAsJSON", "eventFromJSON"):
+        ctx.need(name in it.globals, f"function {name}")
+    for name in ("classInfo", "uuidToLoader"):
+        expr = js.module_assign(name)
+        if expr is not None:
+            it.globals[name] = it.ev(expr, [])
+    G = it.globals
+
+    def text_of(event):
+        if "log_flattened" in event:
+            return G["flatFormat"](event)
+        return _expected(event["log_format"], event)   # nothing was flattened: the live formatter is used
+
+    def guarded(fn):
+        try:
+            return fn()
+        except Nonterminating:
+            return "<does not terminate>"
+        except AnalysisError:
+            raise
+        except Exception as e:
+            return f"<raises {type(e).__name__}: {str(e)[:60]}>"
+    for fmt in FAMILY:
+        want = _expected(fmt, _values())
+        e1 = dict(_values(), log_format=fmt)
+
+        def stage1():
+            G["flattenEvent"](e1)
+            return text_of(e1)
+
+        def stage2():
+            G["flattenEvent"](e1)
+            return text_of(e1)
+
+        def stage3():
+            e3 = dict(_values(), log_format=fmt)
+            return text_of(G["eventFromJSON"](G["eventAsJSON"](e3)))
+        bad = None
+        for label, fn in (("after flattenEvent", stage1), ("after flattening twice", stage2), ("after eventAsJSON/eventFromJSON", stage3)):
+            got = guarded(fn)
+            if got != want and bad is None:
+                bad = (label, got)
+        ctx.check(bad is None, "roundtrip/concrete-family", f"{QF}flattenEvent|flatFormat | {fmt!r}",
+                  (f"{bad[0]} the event formats as {bad[1]!r}, the original formats as {want!r}" if bad else ""), detail=f"all three stages give {want!r}")
+    ctx.floor("roundtrip/concrete-family", len(FAMILY), 20, "format strings")
+
+
+def check(ctx):
+    with ctx.section("flatten/format structure"):
+        _structural(ctx)
+    with ctx.section("_formatEvent dispatch"):
+        _dispatch(ctx)
+    with ctx.section("JSON"):
+        _json(ctx)
+    with ctx.section("concrete family"):
+        _concrete(ctx)
+
+
 def _assigned_from(loop, call):
     return {t.id for st in ast.walk(loop) if isinstance(st, ast.Assign) and st.value is call for t in st.targets if isinstance(t, ast.Name)}
+
+
+# a per-call memo of resolved fields in flattenEvent (one keyed wrongly = mutant, one keyed properly = silent variant)
+_M_DECL = (FLAT, "    keyFlattener = KeyFlattener()\n\n    for literalText, fieldName, formatSpec, conversion in aFormatter.parse(\n        event[\"log_format\"]\n    ):\n        if fieldName is None:",
+           "    keyFlattener = KeyFlattener()\n    lookedUp = {}\n\n    for literalText, fieldName, formatSpec, conversion in aFormatter.parse(\n        event[\"log_format\"]\n    ):\n        if fieldName is None:")
+_M_OLD = ("        field = aFormatter.get_field(fieldName, (), event)\n        fieldValue = field[0]\n\n        if conversion == \"r\":\n            conversionFunction = repr\n"
+          "        else:  # Above: if conversion is not \"r\", it's \"s\"\n            conversionFunction = str\n\n        if callit:\n            fieldValue = fieldValue()\n\n")
+
+
+def _memo(keyexpr):
+    return (f"        memoKey = {keyexpr}\n        if memoKey in lookedUp:\n            fieldValue = lookedUp[memoKey]\n        else:\n"
+            "            fieldValue = aFormatter.get_field(fieldName, (), event)[0]\n            if callit:\n                fieldValue = fieldValue()\n"
+            "            lookedUp[memoKey] = fieldValue\n\n        if conversion == \"r\":\n            conversionFunction = repr\n        else:\n            conversionFunction = str\n\n")
 
 
 MUTANTS = [
@@ -373,6 +549,15 @@ MUTANTS = [
     Mutant("strip-parens-before-key", FLAT, "        flattenedKey = keyFlattener.flatKey(fieldName, formatSpec, conversion)\n        structuredKey = keyFlattener.flatKey(fieldName, formatSpec, \"\")\n\n        if flattenedKey in fields:\n            # We've already seen and handled this key\n            continue\n\n        if fieldName.endswith(\"()\"):\n            fieldName = fieldName[:-2]\n            callit = True\n        else:\n            callit = False\n",
            "        if fieldName.endswith(\"()\"):\n            fieldName = fieldName[:-2]\n            callit = True\n        else:\n            callit = False\n        flattenedKey = keyFlattener.flatKey(fieldName, formatSpec, conversion)\n        structuredKey = keyFlattener.flatKey(fieldName, formatSpec, \"\")\n\n        if flattenedKey in fields:\n            continue\n",
            expect_rule="key/uses-unstripped-field-name"),
+    Mutant("memo-keyed-by-stripped-field-name", FLAT, _M_OLD, _memo("fieldName"), more=[_M_DECL], expect_rule="roundtrip/concrete-family"),
+    Mutant("dumps-rejects-nan-and-inf", JSON, "dumps(event, default=default, skipkeys=True)", "dumps(event, default=default, skipkeys=True, allow_nan=False)",
+           expect_rule="json/serialisation-total"),
+    Mutant("dumps-without-skipkeys", JSON, "dumps(event, default=default, skipkeys=True)", "dumps(event, default=default)", expect_rule="json/serialisation-total"),
+    Mutant("loads-maps-constants", JSON, "loads(eventText, object_hook=objectLoadHook)", "loads(eventText, object_hook=objectLoadHook, parse_constant=lambda name: None)",
+           expect_rule="json/serialisation-total"),
+    Mutant("structured-key-call-skipped-when-seen", FLAT, "        flattenedKey = keyFlattener.flatKey(fieldName, formatSpec, conversion)\n        structuredKey = keyFlattener.flatKey(fieldName, formatSpec, \"\")\n\n        if flattenedKey in fields:\n            # We've already seen and handled this key\n            continue\n",
+           "        flattenedKey = keyFlattener.flatKey(fieldName, formatSpec, conversion)\n        if fieldName + \"!s:\" in fields and conversion == \"s\":\n            flattenedKey = fieldName + \"!s:\"\n        structuredKey = keyFlattener.flatKey(fieldName, formatSpec, \"\")\n\n        if flattenedKey in fields:\n            continue\n",
+           expect_rule="roundtrip/concrete-family"),
     Mutant("json-without-flatten", JSON, "    flattenEvent(event)\n    return dumps(", "    return dumps(", expect_rule="json/flatten-before-dumps"),
     Mutant("reader-joins-with-space", FLAT, "    return \"\".join(s)", "    return \" \".join(s)", expect_rule="reader/joins-with-empty-separator"),
     Mutant("reader-field-before-literal", FLAT, "        s.append(literalText)\n\n        if fieldName is not None:\n            key = keyFlattener.flatKey(fieldName, formatSpec, conversion or \"s\")\n            s.append(str(fieldValues[key]))\n",
@@ -393,5 +578,8 @@ SILENT = [
     Silent("reader-renamed-locals", FLAT, "    for literalText, fieldName, formatSpec, conversion in aFormatter.parse(\n        event[\"log_format\"]\n    ):\n        s.append(literalText)\n\n        if fieldName is not None:\n            key = keyFlattener.flatKey(fieldName, formatSpec, conversion or \"s\")\n            s.append(str(fieldValues[key]))\n",
            "    for lit, name, spec, conv in aFormatter.parse(\n        event[\"log_format\"]\n    ):\n        s.append(lit)\n        if name is None:\n            continue\n        key = keyFlattener.flatKey(name, spec, conv or \"s\")\n        s.append(str(fieldValues[key]))\n"),
     Silent("flatkey-suffix-test", FLAT, "        if n != 1:\n", "        if n > 1:\n"),
+    Silent("memo-keyed-by-name-and-call-flag", FLAT, _M_OLD, _memo("(fieldName, callit)"), more=[_M_DECL]),
+    Silent("memo-keyed-by-flattened-key", FLAT, _M_OLD, _memo("flattenedKey"), more=[_M_DECL]),
+    Silent("dumps-keeps-unicode", JSON, "dumps(event, default=default, skipkeys=True)", "dumps(event, default=default, skipkeys=True, ensure_ascii=False, allow_nan=True)"),
     Silent("json-local-for-text", JSON, "    flattenEvent(event)\n    return dumps(event, default=default, skipkeys=True)", "    flattenEvent(event)\n    text = dumps(event, default=default, skipkeys=True)\n    return text"),
 ]
